@@ -1689,7 +1689,7 @@ func checkValuePairing(r *Run, prog *Program, a *Anchors, ga *GA, c *c09ctx, pfx
 		ps.Seed = func(st *pstate) { st.eqc[opKey] = constKey(kk) }
 		ps.Model = func(ev *Event) *Sym {
 			if ev.Callee == a.GetValue {
-				return &Sym{K: sTuple, Kids: []*Sym{{K: sOpaque, V: ev.Instr.Value(), Str: "value"}, {K: sConst, C: constant.MakeBool(true)}, nilSym()}}
+				return a.lookupModel(&Sym{K: sOpaque, V: ev.Instr.Value(), Str: "value"}, &Sym{K: sConst, C: constant.MakeBool(true)}, nilSym())
 			}
 			return nil
 		}
